@@ -40,7 +40,7 @@ P = {
    oracle="never both; Completed once true stays true and Aborted stays false after it; Aborted once true stays true and Completed false; exactly one after Wait; cancelled unfinished bars report aborted",
    nontrivial=">= 1 bar with final getters read"),
  "C13": dict(level="exploration", sec="6/C13",
-   text="1-4 writer clients write uniquely tagged lines before, between and during render cycles, racing with completion, the final render, Shutdown, and after Wait; the concatenated output is parsed",
+   text="1-4 writer clients write uniquely tagged lines before, between and during render cycles, racing with completion, the final render, Shutdown, and after Wait (single lines, paragraphs, more than 4 KiB, empty writes, the same line repeated once per cycle over idle bars; the caller overwrites its buffer after each call); the concatenated output is parsed",
    oracle="a successful Write (rendering started) has its lines exactly once, contiguous, above the bar rows of its frame, in an order consistent with call order, before Wait returns (auto) / on the next frame (manual); failed or late writes emit nothing and late ones return (0, ErrDone); no foreign user line",
    nontrivial=">= 2 Write calls and >= 1 frame"),
  "C16": dict(level="exploration", sec="6/C16",
@@ -57,7 +57,7 @@ P = {
    oracle="per frame/side/column: common width == max(W > textwidth ? W : textwidth + extraspace); returned string has that display width and is in the bar's row; members are exactly the drawn bars; one Format per decorator per cycle",
    nontrivial=">= 2 bars with synchronised decorators and >= 1 frame"),
  "C14": dict(level="fault_enumeration", sec="6/C14",
-   text="for every base run the cancellation (context cancel or Shutdown) is injected by a canceller goroutine at every scheduling step of the base execution (all steps up to 400/1200, a seeded sample beyond), with the identical schedule prefix; auto, manual and non-refreshing containers, listeners under 0-3 wrapper layers, notifier, Add in flight",
+   text="for every base run the cancellation (context cancel or Shutdown) is injected by a canceller goroutine at every scheduling step of the base execution (all steps up to 400/1200, a seeded sample beyond), with the identical schedule prefix; a quarter of the placements again with the next output write or fill after that step failing (the shutdown render dies); auto, manual and non-refreshing containers, listeners under 0-3 wrapper layers, notifier, Add in flight",
    oracle="Wait returns; every bar !IsRunning, Completed xor Aborted, Bar.Wait returns; every shutdown listener notified exactly once before Wait returned; exactly one notifier value without duplicates listing the bars still in the container; no panic; no output after Wait",
    nontrivial="the cancellation was injected before Wait returned and >= 1 bar exists"),
  "C15": dict(level="fault_enumeration", sec="6/C15",
@@ -125,7 +125,7 @@ def main():
         ],
         "checks": checks,
         "not_applicable": na,
-        "notes": "fix: commits in /repo (see /verif/known_findings.json and DESIGN.md section 8): F1 detached heap push, F2 fill error strands sync peers, F3 completed() ignoring aborted, F4a two successors of one predecessor, F5 rows == terminal height, F6 data race in completed(), F8 priority update on a popping bar, F9 Wait returning before late bars' listeners, F10 WaitGroup reuse panic when Add races with cancellation; open finding F4b (late successor, KNOWN-FINDING in C17). Sensitivity: 36 own mutants + 46 independently seeded changes, all detected (DESIGN.md section 12).",
+        "notes": "fix: commits in /repo (see /verif/known_findings.json and DESIGN.md section 8): F1 detached heap push, F2 fill error strands sync peers, F3 completed() ignoring aborted, F4a two successors of one predecessor, F5 rows == terminal height, F6 data race in completed(), F8 priority update on a popping bar, F9 Wait returning before late bars' listeners, F10 WaitGroup reuse panic when Add races with cancellation, F11 filler on-complete/on-abort message wider than the row; open finding F4b (late successor, KNOWN-FINDING in C17). Sensitivity: 36 own mutants + 99 independently seeded changes (7 waves of sub-agents), all detected (DESIGN.md section 12).",
     }
     json.dump(m, open("/verif/MANIFEST.json", "w"), indent=1)
     json.dump(rules, open("/verif/prop_rules.json", "w"), indent=1)
